@@ -9,6 +9,7 @@ import io
 import re
 import tokenize
 
+import os
 import gen_source
 
 TOOLS = ["reformat", "tidy", "transform0", "canonicalize0", "replace_star", "remove_broken"]
@@ -141,7 +142,17 @@ def run_tool(case, text=None):
     from pyflyby import _imports2s as I
     text = case["text"] if text is None else text
     params = make_params(case.get("params", {}))
-    blk = PythonBlock(FileText(text, filename=case["filename"])) if case.get("filename") else PythonBlock(FileText(text))
+    entry = case.get("entry", "block")
+    if entry == "cli":
+        return run_cli(case, text)
+    if case.get("filename"):
+        blk = PythonBlock(FileText(text, filename=case["filename"]))
+    elif entry == "str":
+        blk = text                       # the documented call form: reformat_import_statements(text)
+    elif entry == "filetext":
+        blk = FileText(text)
+    else:
+        blk = PythonBlock(FileText(text))
     tool = case["tool"]
     if tool == "reformat":
         out = I.reformat_import_statements(blk, params=params)
@@ -164,6 +175,47 @@ def run_tool(case, text=None):
     else:
         raise ValueError(tool)
     return out.text.joined
+
+
+CLI = {"reformat": "reformat-imports", "tidy": "tidy-imports", "replace_star": "replace-star-imports",
+       "remove_broken": "prune-broken-imports"}
+
+
+def run_cli(case, text=None):
+    """Run the command-line tool with --replace on a file on disk written in case['encoding'] (a PEP 263 cookie is
+    the case text's business) and read the file back with the same encoding.  A refusal (non-zero exit, file
+    untouched) returns the input."""
+    import subprocess, tempfile, shutil, sys as _sys
+    text = case["text"] if text is None else text
+    enc = case.get("encoding", "utf-8")
+    repo = os.environ.get("VERIF_REPO", "/repo")
+    d = tempfile.mkdtemp(prefix="vt_cli_", dir=os.environ.get("VERIF_SCRATCH") or None)
+    try:
+        f = os.path.join(d, "m.py")
+        data = text.encode(enc)
+        with open(f, "wb") as fh:
+            fh.write(data)
+        db = os.path.join(d, "db.py")
+        with open(db, "w") as fh:
+            fh.write("".join(k + "\n" for k in case.get("known", [])))
+            if case.get("mandatory"):
+                fh.write("__mandatory_imports__ = %r\n" % (list(case["mandatory"]),))
+        env = dict(os.environ, PYTHONPATH=os.path.join(repo, "lib/python"), PYFLYBY_PATH=db, PYFLYBY_LOG_LEVEL="ERROR",
+                   PYTHONIOENCODING="utf-8", LC_ALL="C.UTF-8", LANG="C.UTF-8")
+        cmd = [_sys.executable, os.path.join(repo, "bin", CLI[case["tool"]]), "--replace", f]
+        if case["tool"] == "tidy":
+            fl = case.get("flags", {})
+            cmd[3:3] = ["--add-missing" if fl.get("add_missing", True) else "--no-add-missing",
+                        "--remove-unused" if fl.get("remove_unused", True) else "--no-remove-unused",
+                        "--add-mandatory" if fl.get("add_mandatory", True) else "--no-add-mandatory"]
+        r = subprocess.run(cmd, env=env, cwd=d, capture_output=True, timeout=120)
+        with open(f, "rb") as fh:
+            back = fh.read()
+        if r.returncode != 0 and back == data:
+            raise RuntimeError("cli refused: " + r.stderr.decode("utf-8", "replace")[-200:])
+        return back.decode(enc)
+    finally:
+        shutil.rmtree(d, ignore_errors=True)
 
 
 # --------------------------------------------------------------------------- independent text helpers
